@@ -202,6 +202,21 @@ def atomicAll (j : JState) : Option String :=
     | .mixed why => if why.endsWith "lock left" then none else some s!"C02 transaction {st}: {why}"
     | _ => none
 
+def locksOf (s : Store) (T : Nat) : List Lock :=
+  s.kv.filterMap fun p => match p.2.lock with | some l => if l.startTS == T then some l else none | none => none
+
+/-- an async-commit transaction acknowledged at `N` whose background commit never ran (the client died): it IS
+    committed at `N` when it has no rollback record, every record it has is a data record at `N`, every lock it still
+    holds is an async-commit prewrite lock with min_commit_ts ≤ N, and — when nothing is committed yet — the commit ts
+    recovery would compute (the largest min_commit_ts) is `N` -/
+def asyncCommittedAt (s : Store) (T N : Nat) : Bool :=
+  let recs := recsOf s T
+  let locks := locksOf s T
+  recs.all (fun w => w.vt != .rollback && w.commitTS == N) &&
+    locks.all (fun l => l.op != .pessimisticLock && l.minCommitTS > 0 && l.minCommitTS ≤ N) &&
+    !(recs.isEmpty && locks.isEmpty) &&
+    (!recs.isEmpty || locks.any (fun l => l.minCommitTS == N))
+
 /-- C03: what Commit told the client against the MVCC truth -/
 def toldCheck (j : JState) : Option String :=
   j.told.findSome? fun (st, what) =>
@@ -213,15 +228,22 @@ def toldCheck (j : JState) : Option String :=
     match what.splitOn " " with
     | ["ok", "0"] =>
       -- Commit of a transaction without mutations: nothing to commit, and nothing of it may be in the store
-      if o == .none then none else some s!"C03 Commit of {st} answered success without a commit ts but the store shows {repr o}"
+      -- (pessimistic locks left behind by a client that died before its pessimistic rollback went out are nothing committed)
+      let onlyPessLocks := o == .pending && (locksOf j.store st).all (·.op == .pessimisticLock)
+      if o == .none || onlyPessLocks then none
+      else some s!"C03 Commit of {st} answered success without a commit ts but the store shows {repr o}"
     | ["ok", c] =>
       -- a transaction whose every mutation is a non-locking existence check (optimistic insert-then-delete) commits
       -- without leaving anything in the store
       let onlyChecks := match j.mon.find st with
         | some t => !t.prewritten.isEmpty && t.prewritten.all (fun x => x.2.1 == .checkNotExists)
         | none => false
+      let asyncTxn := match j.mon.find st with
+        | some t => t.asyncAcks > 0 && t.plainAcks == 0
+        | none => false
       if onlyChecks && o == .none then none
       else if committedAt == c.toNat? && committedAt.isSome then none
+      else if asyncTxn && (match c.toNat? with | some n => asyncCommittedAt j.store st n | none => false) then none
       else some s!"C03 Commit of {st} answered success at {c} but the store shows {repr o}"
     | ["undetermined"] =>
       if j.commitPointLost.contains st then none
